@@ -11,6 +11,7 @@ def errName : XErr → String
   | .mismatched => "err:MismatchedType"
   | .invalidInterface => "err:InvalidCiscoInterface"
   | .typeError => "err:TypeError"
+  | .indexError => "err:IndexError"
 
 def decTy : String → Option Ty
   | "auto" => some .auto
@@ -64,14 +65,26 @@ def encAns : AnsX → String
   | .ok => "ok"
   | .err e => errName e
 
-def stepLine (s : St) (op : String) : St × String :=
-  match decOp op with
-  | some o => let r := stepX s o; (r.1, encAns r.2)
-  | none => (s, "bad-op")
+def decRead (op : String) : Option ReadOp :=
+  match op.splitOn ":" with
+  | ["str"] => some .str
+  | ["repr"] => some .repr
+  | ["idx", k] => (decNat k).map .idx
+  | ["eqfresh"] => some .eqFresh
+  | ["data"] => some .data
+  | _ => none
 
-def runOps : St → List String → List String
+def stepLine (rt : CTy) (fresh : List Nat) (s : St) (op : String) : St × String :=
+  match decRead op with
+  | some r => (s, encAns (readX rt fresh s r))
+  | none =>
+    match decOp op with
+    | some o => let r := stepX s o; (r.1, encAns r.2)
+    | none => (s, "bad-op")
+
+def runOps (rt : CTy) (fresh : List Nat) : St → List String → List String
   | _, [] => []
-  | s, op :: ops => let r := stepLine s op; r.2 :: runOps r.1 ops
+  | s, op :: ops => let r := stepLine rt fresh s op; r.2 :: runOps rt fresh r.1 ops
 
 def decCTy : String → Option CTy
   | "int" => some .int
@@ -89,7 +102,7 @@ def handle : List String → String
       | some r =>
         match construct rt r t with
         | .error e => errName e
-        | .ok s => "|".intercalate ("ok" :: runOps s ops)
+        | .ok s => "|".intercalate ("ok" :: runOps rt s.data s ops)
     | _, _, _ => "bad-request"
   | _ => "bad-request"
 
